@@ -44,6 +44,11 @@ var solverTimeMu sync.Mutex
 
 func runOne(ctx context.Context, sp solverSpec, file string, timeoutS int) (status, out string, secs float64) {
 	argv := sp.argv(file, timeoutS)
+	release := acquireSolverSlot(ctx)
+	defer release()
+	if ctx.Err() != nil {
+		return "unknown", "cancelled before start", 0
+	}
 	start := time.Now()
 	cctx, cancel := context.WithTimeout(ctx, time.Duration(timeoutS+2)*time.Second)
 	defer cancel()
